@@ -1,13 +1,27 @@
+import os
+import sys
+
 from checks_common import *  # noqa: F401,F403
+
+
+def _tier():
+    """tier of the vcheck invocation that imported this file (vcheck <ID> [quick|thorough], else VERIF_TIER)"""
+    a = sys.argv[1:]
+    return a[1] if len(a) > 1 and a[1] in ("quick", "thorough") else os.environ.get("VERIF_TIER", "quick")
+
 
 CHECK = {
     "harness": "c15_wrappable_grid.cpp",
     "srcs": [],                       # WrappableGrid.hpp / Grid.hpp are header-only
     "flavours": ["asan"],
-    "quick": {"shards": 4, "timeout": 900},
-    "thorough": {"shards": 16, "timeout": 3600},
-    # the bounded-exhaustive part enumerates its (per-tier) scope completely, see "rule"
-    "exhaustive": True,
+    # watchdogs are sized for a machine shared with other checks (calibrated: quick 35 s CPU in total,
+    # thorough ~45 min CPU in total, i.e. < 3 min per shard on an idle 16-core machine)
+    "quick": {"shards": 4, "timeout": 1800},
+    "thorough": {"shards": 16, "timeout": 14400},
+    # Only the thorough tier enumerates the property's whole bounded scope (2D grids 1..4, 3D grids 1..3,
+    # <= 3 translations, offsets in [-(n+1), n+1]).  The quick tier enumerates a reduced 3D scope (stated in
+    # "rule") completely, which is not the stated scope, so it does not claim exhaustive.
+    "exhaustive": _tier() == "thorough",
     "required_categories": ["exh2d_enum", "exh2d_bfs", "exh3d_bfs", "random_2d", "random_3d",
                             "cells_int", "cells_double", "cells_string"],
     "required_oracles": ["cells.survivors_keep_value", "cells.entrants_read_empty",
